@@ -195,8 +195,8 @@ ENTRY = {
     "Identity": ["matvec", "inv", "logdet", "diag", "trace", "exp", "cholesky", "plu"],
     "Permutation": ["matvec", "matmat", "inv"],
     "Tridiagonal": ["matvec", "matmat"],
-    "KronDiag": ["matvec", "matmat", "inv", "solve", "slogdet"],
-    "KronScaled": ["matvec", "inv", "slogdet"],
+    "KronDiag": ["matvec", "matmat", "inv", "solve", "slogdet", "diag", "trace"],
+    "KronScaled": ["matvec", "inv", "slogdet", "diag", "trace"],
     "KronPlusDiag": ["matvec", "matmat", "diag", "trace"],
 }
 ALG_VARIANTS = {"cholesky": ["function", "object-call"], "plu": ["function", "object-call"],  # cholesky(A) / Cholesky()(A), plu(A) / LU()(A)
@@ -321,9 +321,17 @@ def run_case(ctx, case):
                (ev[0] in ("cholesky", "plu") and ev[2].endswith("(LinearOperator)"))]
         ctx.check("structural-rule-selected", not bad, site=e, preds=preds, detail={"generic_rules": bad[:3]})
     bound = KAPPA * (n * ncols + inst.storage + n) * 8
+    if e in ("diag", "trace") and case["kind"] in ("KronDiag", "KronScaled"):
+        # (no structural diag rule for a scaled / diagonally weighted Kronecker product: the exact algorithm probes with blocks of
+        # 100 columns, O(n * 100) memory - still far from n^2 for the sizes judged here)
+        bound = max(bound, 10 * n * 100 * 8)  # (measured on the pinned tree: 4.8 blocks of n x 100 doubles)
+        if bound > 0.7 * n * n * 8:
+            ctx.count("probing_bound_not_decidable_at_this_size", e)
+            bound = float("inf")
     ctx.check("peak-memory-bounded", bool(peak <= bound), site=e, preds=preds,
-              detail={"peak_bytes": int(peak), "bound_bytes": int(bound), "dense_bytes": int(n * n * 8), "n": n})
-    ctx.notes["max_peak_over_bound_x1000"] = max(ctx.notes.get("max_peak_over_bound_x1000", 0), int(1000 * peak / bound))
+              detail={"peak_bytes": int(peak), "bound_bytes": (int(bound) if np.isfinite(bound) else None), "dense_bytes": int(n * n * 8), "n": n})
+    if np.isfinite(bound):
+        ctx.notes["max_peak_over_bound_x1000"] = max(ctx.notes.get("max_peak_over_bound_x1000", 0), int(1000 * peak / bound))
     # fast but wrong is not accepted: compare with the factor-wise reference
     ok, detail = verify(case, inst, e, out, x, X)
     ctx.check("result-correct", bool(ok), site=e, preds=preds, detail=detail)
@@ -378,12 +386,16 @@ def verify(case, inst, e, out, x, X):
             want = 0.0
         return bool(abs(complex(np.asarray(val)) - want) <= 1e-7 * max(abs(want), 1.0)), {"got": complex(np.asarray(val)), "want": float(want)}
     if e in ("diag", "trace"):
-        if kind in ("Kronecker", "KronPlusDiag"):
+        if kind in ("Kronecker", "KronPlusDiag", "KronDiag", "KronScaled"):
             d = Fs[0].diagonal()
             for F in Fs[1:]:
                 d = np.kron(d, F.diagonal())
             if kind == "KronPlusDiag":
                 d = d + inst.d
+            if kind == "KronDiag":
+                d = d * inst.d  # diag(K @ D) = diag(K) * d
+            if kind == "KronScaled":
+                d = 2.0 * d
         elif kind == "KronSum":
             d = np.zeros(1)
             for F in Fs:
